@@ -108,7 +108,8 @@ def python_abi_oracle(admits, impl, gil, py, abi, grid):
         rest = abin[len(py) :]
         if not abin.startswith(py.lower()) or (rest and not rest.isalpha()):
             return None
-        if impl is not None and abin.endswith("t") != gil:
+        # PEP 703: the free-threading flag is the letter t among the ABI flags (cp313t, cp313td)
+        if impl is not None and ("t" in rest) != gil:
             return None
         rank = 2
     else:
